@@ -29,6 +29,9 @@ def _contracts():
          lambda xs, result: result == (1 if xs[0] > 0 else 0) + (1 if xs[1] > 0 else 0) + (1 if xs[2] > 0 else 0))
     pair('safe_div', dict(a=RealT(), b=RealT()),
          lambda a, b, result: (result is None) == (b == 0), float_mode='real')
+    pair('fresh_names', dict(seen=TupleT(StrT(), StrT()), new=TupleT(StrT(), StrT())),
+         lambda seen, new, result: all(n != s for n in result for s in seen)
+         and len(result) == sum(1 for n in new if n != seen[0] and n != seen[1]))
     return out
 
 
